@@ -226,6 +226,44 @@ def check_reset(program, rep):
               'frame instead of 0', line=f.node.lineno)
 
 
+def check_writers(program, rep):
+    """Only start() (reset) and loop() (new reading) - and private helpers
+    that run only as part of them - store last_timestamp."""
+    from .util import methods_of, called_only_from
+    lp = program.cls('Loop')
+    meths = methods_of(program, lp)
+    allowed, _ = called_only_from(meths, {'__init__', 'start', 'loop'})
+    n = 0
+    for c in [lp] + program.subclasses(lp):
+        for m in c.methods.values():
+            for s in ast.walk(m.node):
+                tg = []
+                if isinstance(s, ast.Assign):
+                    tg = [t for tt in s.targets for t in (
+                        tt.elts if isinstance(tt, ast.Tuple) else [tt])]
+                elif isinstance(s, (ast.AugAssign, ast.AnnAssign)):
+                    tg = [s.target]
+                elif isinstance(s, ast.Call) and dotted(s.func) == 'setattr' \
+                        and len(s.args) >= 2 and isinstance(
+                            s.args[1], ast.Constant) and s.args[1].value == \
+                        'last_timestamp':
+                    tg = [ast.Attribute(s.args[0], 'last_timestamp')]
+                for t in tg:
+                    if isinstance(t, ast.Attribute) and t.attr == \
+                            'last_timestamp':
+                        n += 1
+                        rep.check(m.name.split('.')[0] in allowed,
+                                  'C14.writers', m.where, s,
+                                  'last_timestamp is stored by start()/loop()',
+                                  f'{m.qualname} stores last_timestamp: the '
+                                  'interval between the two surrounding '
+                                  'clock readings is lost (dt = 0) or counted '
+                                  'against a wrong reference - the time fed '
+                                  'to process() no longer adds up to the '
+                                  'clock', line=s.lineno)
+    rep.floor('C14.writers', 'stores of last_timestamp', n, 2)
+
+
 def check_quit(program, rep):
     lp = program.cls('Loop')
     sl = program.cls('SimpleLoop')
@@ -317,12 +355,33 @@ def check_quit(program, rep):
         for t, v in conds.items():
             if t.endswith(' is None') and 'current_world' in t:
                 tgt_none = v
+        P = q.params()[0] if q.params() else 'target'
+        given = conds.get(f'{P} is None')
         if disp:
             n_disp += 1
             a = [norm(x) for x in disp[-1].sym.node.args]
             if a != ["'on_quit'"]:
                 bad = bad or (disp[-1].node, f'quit_loop dispatches {a}, '
                               'not on_quit')
+            recv = norm(disp[-1].sym.node.func.value)
+            names = {n.id for n in ast.walk(disp[-1].sym.node.func.value)
+                     if isinstance(n, ast.Name)}
+            if recv == P:
+                pass
+            elif P not in names and 'current_world' in recv:
+                if given is not True:
+                    bad = bad or (disp[-1].node, 'on_quit goes to the current '
+                                  f'world on a path that has not established '
+                                  f'"{P} is None": a given world is ignored')
+            else:
+                bad = bad or (disp[-1].node, 'the world that receives on_quit '
+                              f'is chosen by the truth value of `{P}` ({recv}'
+                              '): a given world that is falsy (a World '
+                              'subclass with __len__/__bool__, no entities) '
+                              'is replaced by the default loop\'s world')
+        elif given is False:
+            bad = bad or (ex.node, f'quit_loop raises Quit without delivering '
+                          'on_quit although a world was given')
         else:
             # allowed only when no world could be determined
             if not any(t.endswith('is None') and v is True
@@ -341,4 +400,5 @@ def check_quit(program, rep):
 def run(program, rep, tier):
     check_dt(program, rep)
     check_reset(program, rep)
+    check_writers(program, rep)
     check_quit(program, rep)
